@@ -114,6 +114,7 @@ func TestC11SeqGroup(t *testing.T) {
 		t.Run(gg.name, func(t *testing.T) {
 			vlib.Check(t, vlib.N(600, 2400)/gg.div, func(t *rapid.T) { m.run(t, snaps) })
 			m.decodeSweep(t)
+			m.pairSweep(t)
 		})
 	}
 }
